@@ -131,7 +131,10 @@ class _StatePointDict(JSONAttrDict):
             except OSError as error:
                 os.replace(tmp_statepoint_file, self.filename)  # rollback
                 # The job did not move, so the in-memory state point must
-                # describe the old job again.
+                # describe the old job again. Clear it first, because updating
+                # in place keeps entries that merely compare equal.
+                with self._suspend_sync:
+                    self._update({})
                 self.load(old_id)
                 if error.errno in (errno.EEXIST, errno.ENOTEMPTY, errno.EACCES):
                     raise DestinationExistsError(new_id)
